@@ -8,6 +8,7 @@ from .. import paths
 from ..core import FUNC, call_attr, calls_in, chain, dotted, kwarg, text, walk_local, norm, is_const, const
 
 EXPLANATION = [
+    'C03.match-arms: in the match statements of the anchored modules no class arm comes after an arm for one of its base classes (class patterns are isinstance tests in order: the later arm would never run).',
     "C03.ready-gate: while the host is not ready (reset in progress) Host.on_packet still dispatches the Command Complete / Command Status whose opcode is the pending command's: a command queued behind reset() cannot lose its response and block the command semaphore.",
     "C03.le-connection-concluded: every exit of Controller.create_le_connection has emitted an LE Connection Complete event and cleared pending_le_connection (path rule), the 'already connected to this peer' exit included.",
     "C03.response-match: in Host.on_command_processed an event whose opcode differs from the pending command's does not resolve the pending future (path rule over the comparison). OPEN FINDING on the current tree (the mismatch is only logged), kept because the repair fails an existing test.",
@@ -1126,7 +1127,13 @@ def ready_gate(ctx):
             'while `ready` is False only the Reset completion is let through: the response to a command that was queued behind reset() is dropped, its caller keeps the command semaphore and reset() waits for it for ever', p.loc(fn))
 
 
+def match_arms_rule(ctx):
+    from ..generic_rules import match_arm_shadowing
+    match_arm_shadowing(ctx, 'C03.match-arms', ['bumble.controller', 'bumble.host'])
+
+
 RULES = [
+    ('C03.match-arms', match_arms_rule),
     ('C03.ready-gate', ready_gate),
     ('C03.le-connection-concluded', le_connection_concluded),
     ('C03.response-match', response_match),
